@@ -122,6 +122,7 @@ theorem pvEqIn_refl_shared : ∀ p, pvEqIn true p p = true
   | .str a => by simp [pvEqIn]
   | .float n r => by simp [pvEqIn]
   | .atom b i => by simp [pvEqIn]
+  | .val k r => by simp [pvEqIn]
   | .hook i s => by simp [pvEqIn]
   | .list a => by simp [pvEqIn, pvEqL_refl_shared a]
   | .tuple a => by simp [pvEqIn, pvEqL_refl_shared a]
@@ -142,6 +143,7 @@ theorem pvEqIn_refl : ∀ p, hasNaN p = false → pvEqIn false p p = true
   | .str a, _ => by simp [pvEqIn]
   | .float n r, h => by simp [hasNaN] at h; simp [pvEqIn, h]
   | .atom b i, _ => by simp [pvEqIn]
+  | .val k r, _ => by simp [pvEqIn]
   | .hook i s, _ => by simp [pvEqIn]
   | .list a, h => by simp only [hasNaN] at h; simp [pvEqIn, pvEqL_refl a h]
   | .tuple a, h => by simp only [hasNaN] at h; simp [pvEqIn, pvEqL_refl a h]
@@ -184,6 +186,7 @@ theorem dillPV_id (fresh : Nat → Nat) : ∀ p, byRefOnly p = true → dillPV f
   | .str a, _ => by simp [dillPV]
   | .float n r, _ => by simp [dillPV]
   | .atom b i, h => by simp [byRefOnly] at h; simp [dillPV, h]
+  | .val k r, _ => by simp [dillPV]
   | .hook i s, h => by simp [byRefOnly] at h
   | .list a, h => by simp only [byRefOnly] at h; simp [dillPV, dillL_id fresh a h]
   | .tuple a, h => by simp only [byRefOnly] at h; simp [dillPV, dillL_id fresh a h]
@@ -734,21 +737,31 @@ theorem c12_dict_hook_full_fails :
   decide
 
 /-- **The node factory is the way back for payload objects with a `serialise()` method.**  If the
-factory handed to `deserialise` rebuilds payloads by `inv` and `inv` inverts `serialise()` on the
-payloads of `g`, the node records come back identical and the graphs are `==` (payloads that are
-not NaN). -/
+factory handed to `deserialise` rebuilds payloads by `inv` and `inv` maps what comes back for EVERY
+node of `g` to that node's payload (`hinv`: for a payload object with a `serialise()` method `inv`
+inverts the method and returns the object itself, i.e. the same identity; for every other payload
+`inv` is the identity on it - so a graph that holds an object H and, on another node, a plain payload
+equal to `H.serialise()` has no such `inv` and is outside this theorem), then the node records come
+back identical, all of them reachable, and `==` evaluates to the conjunction of the comparisons
+`p == p` of the payloads with themselves, in either direction: `True` unless a payload is a NaN.
+(A factory that builds a NEW object with the same state - what the harness's factory does - gives
+identical records up to the identity of these objects; that is compared by the tie, by state.) -/
 theorem c12_hook_factory (g : Graph) (h : WF g) (inv : PV → PV)
     (hinv : ∀ n ∈ g.nodes, inv (rp hookSer n.payload) = n.payload) :
     ∃ g', deserialise R (serialise g) = .ok g' ∧ (withFactory inv g').nodes = g.nodes ∧
-      graphNodes (withFactory inv g') = (withFactory inv g').nodes := by
+      graphNodes (withFactory inv g') = (withFactory inv g').nodes ∧
+      graphEq true (withFactory inv g') g = g.nodes.all (fun n => pvEq true n.payload n.payload) ∧
+      graphEq true g (withFactory inv g') = g.nodes.all (fun n => pvEq true n.payload n.payload) ∧
+      (NoTopNaN g → graphEq true (withFactory inv g') g = true ∧ graphEq true g (withFactory inv g') = true) := by
   obtain ⟨g', h1, h2, h3, _⟩ := c12_nothing_lost g h
-  refine ⟨g', h1, ?_, ?_⟩
-  · simp only [withFactory, h2, List.map_map]
+  have hnodes : (withFactory inv g').nodes = g.nodes := by
+    simp only [withFactory, h2, List.map_map]
     have : ∀ n ∈ g.nodes, ((fun n : Node => { n with payload := inv n.payload }) ∘ mp hookSer) n = n := by
       intro n hn
       simp only [Function.comp, mp, hinv n hn]
     rw [List.map_congr_left this]; simp
-  · -- the factory changes payloads only: reachability is that of g'
+  have hreach : graphNodes (withFactory inv g') = (withFactory inv g').nodes := by
+    -- the factory changes payloads only: reachability is that of g'
     have hsw : ∀ (l : List Node) (need : List String),
         sweep (l.map (fun n : Node => { n with payload := inv n.payload })) need =
           ((sweep l need).1.map (fun n : Node => { n with payload := inv n.payload }), (sweep l need).2) := by
@@ -761,6 +774,48 @@ theorem c12_hook_factory (g : Graph) (h : WF g) (inv : PV → PV)
     simp only [graphNodes, withFactory, hsw]
     have : (sweep g'.nodes g'.sinks).1 = g'.nodes := h3
     rw [this]
+  have hid : g.nodes.map (mp id) = g.nodes := map_mp_fix id _ (fun _ _ => rfl)
+  have hga : graphNodes (withFactory inv g') = g.nodes.map (mp id) := by rw [hreach, hnodes, hid]
+  have hgb : graphNodes g = g.nodes := trim_eq g h.trim
+  have hrp : ∀ n ∈ g.nodes, rp id n.payload = n.payload := fun n _ => rp_fix id _ rfl
+  have e1 : graphEq true (withFactory inv g') g = g.nodes.all (fun n => pvEq true n.payload n.payload) := by
+    rw [graphEq_mapped_left true id _ g g.nodes hga hgb h.names h.inputNames]
+    exact all_congr_mem _ _ _ (fun n hn => by rw [hrp n hn])
+  have e2 : graphEq true g (withFactory inv g') = g.nodes.all (fun n => pvEq true n.payload n.payload) := by
+    rw [graphEq_mapped_right true id _ g g.nodes hga hgb h.names h.inputNames]
+    exact all_congr_mem _ _ _ (fun n hn => by rw [hrp n hn])
+  refine ⟨g', h1, hnodes, hreach, e1, e2, ?_⟩
+  · intro hnan
+    have : g.nodes.all (fun n => pvEq true n.payload n.payload) = true := by
+      rw [List.all_eq_true]; intro n hn; exact pvEq_refl_shared _ (hnan n hn)
+    exact ⟨by rw [e1, this], by rw [e2, this]⟩
+
+/-- the harness's inverting node factory: a payload `{"__c12hook__": id, "v": s}` is turned back into
+the object `id` whose `serialise()` returns that dict -/
+def invHook : PV → PV
+  | .dict [(.str "__c12hook__", .int id), (.str "v", s)] => .hook id.toNat (.dict [(.str "__c12hook__", .int id), (.str "v", s)])
+  | p => p
+
+/-- a graph with a payload object whose `serialise()` result the factory `invHook` recognises, next
+to a plain payload, a tuple payload and a value (bytes) payload -/
+def exHookM : Graph :=
+  { nodes := [ { name := "a", outputs := ["0", "0", "x"], payload := .hook 5 (.dict [(.str "__c12hook__", .int 5), (.str "v", .list [.int 1])]), inputs := [] },
+               { name := "b", outputs := [], payload := .tuple [.str "f", .val "bytes" "bytes:b'xy'"], inputs := [("p", ⟨"a", "x"⟩), ("q", ⟨"a", "0"⟩)] } ]
+    sinks := ["b"] }
+
+theorem exHookM_wf : WF exHookM := ⟨by decide, by decide, by decide, by decide, by decide⟩
+
+theorem exHookM_inv : ∀ n ∈ exHookM.nodes, invHook (rp hookSer n.payload) = n.payload := by
+  intro n hn
+  simp only [exHookM, List.mem_cons, List.not_mem_nil, or_false] at hn
+  rcases hn with rfl | rfl <;> rfl
+
+/-- `c12_hook_factory` has an instance: with the factory `invHook` the graph `exHookM` comes back
+with identical records and `==` both ways -/
+example : ∃ g', deserialise R (serialise exHookM) = .ok g' ∧ (withFactory invHook g').nodes = exHookM.nodes ∧
+    graphEq true (withFactory invHook g') exHookM = true ∧ graphEq true exHookM (withFactory invHook g') = true := by
+  obtain ⟨g', h1, h2, _, _, _, h6⟩ := c12_hook_factory exHookM exHookM_wf invHook exHookM_inv
+  exact ⟨g', h1, h2, h6 (by decide)⟩
 
 /-- **JSON round trip.**  When `json.dumps` accepts the payloads, `from_json(to_json(g))` succeeds
 and rebuilds every node with its payload JSON-normalised (tuples read back as lists, keys as
@@ -905,6 +960,46 @@ example : (match deserialise R (serialise exG) with
 example : (match jsonTrip R exG with
     | .ok g' => (graphNodes g').map (·.name) == ["a", "b", "c", "d"] && !graphEq false g' exG
     | .error _ => false) = true := by decide
+/-- payloads JSON represents faithfully (lists, string-keyed dicts, str incl. non-ASCII, numbers), a node with
+the same output name twice, a terminal node with outputs, a node twice in the sink list -/
+def exJ : Graph :=
+  { nodes := [ { name := "a", outputs := ["x", "x", "y"], payload := .list [.int 1, .str "é😀", .dict [(.str "k", .list [])]], inputs := [] },
+               { name := "b", outputs := ["0"], payload := .dict [(.str "a", .float false "0x1.8p+0"), (.str "b", .none)],
+                 inputs := [("p", ⟨"a", "x"⟩), ("q", ⟨"a", "y"⟩)] } ]
+    sinks := ["b", "b"] }
+
+theorem exJ_wf : WF exJ := ⟨by decide, by decide, by decide, by decide, by decide⟩
+
+/-- `Faithful` has an instance on a well-formed graph … -/
+theorem exJ_faithful : Faithful exJ := by
+  refine ⟨?_, by decide⟩
+  intro n hn
+  simp only [exJ, List.mem_cons, List.not_mem_nil, or_false] at hn
+  rcases hn with rfl | rfl <;> rfl
+
+/-- … so the last clause of `c12_json` is instantiated: identical records and `==` through JSON -/
+example : ∃ g', jsonTrip R exJ = .ok g' ∧ g'.nodes = exJ.nodes ∧ graphEq false g' exJ = true ∧ graphEq false exJ g' = true := by
+  obtain ⟨g', h1, _, _, _, _, h6⟩ := (c12_json exJ exJ_wf).2 (by decide)
+  obtain ⟨h7, h8, h9⟩ := h6 (by decide) exJ_faithful
+  exact ⟨g', h1, h7, h8, h9⟩
+
+/-- value payloads that `json.dumps` rejects (bytes, a frozenset, an instance of a class with `__eq__`), also nested -/
+def exV : Graph :=
+  { nodes := [ { name := "a", outputs := ["0"], payload := .val "bytes" "bytes:b'\\xff'", inputs := [] },
+               { name := "b", outputs := ["0"], payload := .tuple [.atom true 1, .list [.val "frozenset" "frozenset{int:1}"], .dict [(.str "k", .val "C12Val" "C12Val()")]],
+                 inputs := [("input0", ⟨"a", "0"⟩)] } ]
+    sinks := ["b"] }
+
+theorem exV_wf : WF exV := ⟨by decide, by decide, by decide, by decide, by decide⟩
+example : NoHook exV ∧ NoTopNaN exV ∧ NoNaN exV ∧ ByRefOnly exV := by decide
+-- not JSON-serialisable; `==` through the dict and (new but equal value objects) through the file
+example : (match jsonTrip R exV with | .error .typeError => true | _ => false) = true := by decide
+example : ∃ g', fileTrip R (dillPV (· + 100)) exV = .ok g' ∧ g'.nodes = exV.nodes ∧ graphEq false g' exV = true := by
+  obtain ⟨g', h1, h2, _, h4, _⟩ := c12_file_partial (· + 100) exV exV_wf (by decide) (by decide)
+  exact ⟨g', h1, h2, h4⟩
+-- a bytes payload is not the str with the same characters, a set is not the frozenset with the same elements (stricter than Python)
+example : pvEq false (.val "bytes" "bytes:b'xy'") (.str "xy") = false ∧ pvEq true (.val "set" "{}") (.val "frozenset" "{}") = false := by decide
+
 -- a fluent-style graph is not JSON-serialisable, and comes back `==` from the file
 example : (match jsonTrip R exF with | .error .typeError => true | _ => false) = true := by decide
 example : (match fileTrip R (dillPV (· + 100)) exF with
